@@ -286,6 +286,8 @@ def run(run, model):
     run.try_rule(c09.r09_1, model)
     run.try_rule(c09.r09_3, model)
     run.try_rule(c06.r06_2, model)
+    run.try_rule(c06.r06_7, model)
+    run.try_rule(c06.r06_8, model)
     run.assume("pipeline::compile returns the AST only when lowering pushed no error, so a None after push_error cannot reach later stages")
     run.assume("`?` on a raw CST accessor in ast::lower is sound only if the parser emits that child in every error-free tree (not decided here)")
     run.assume("restructuring arms (decision trees, closure conversion, ANF naming, Go statement shapes) are outside R01.4 by construction: they build a different variant")
